@@ -587,6 +587,29 @@ def ss_oracle(r, conv):
         exp = ss_expected_subst(d, conv)
         if exp is not None and d['ss'].split(';')[0].strip() != exp:
             contract.append({'what': 'substituted netlist line differs from the model', 'line': d['ss'], 'expected': exp})
+    # (1b) x0 lists the initial value of the state variable named at the same position of x
+    if ss.get('x_ic') and len(ss['x_ic']) == len(ss['x0']):
+        for k, (xn, got, want) in enumerate(zip(ss['x'], ss['x0'], ss['x_ic'])):
+            if want is not None:
+                st['checked'] += 1
+                if Fraction(got) != Fraction(want):
+                    bad.append({'key': 'ss:x0-order', 'what': 'ss.x0[%d] = %s but the state at that position is %s whose initial value in the netlist is %s' % (k, got, xn, want)})
+                    break
+    # (1c) initial-state response: C (sI - A)^-1 x0 against the ivp analysis of the circuit with its sources zeroed
+    if ss.get('yref0') and any(Fraction(x) != 0 for x in ss['x0']) and n:
+        x0_ = [Fraction(x) for x in ss['x0']]
+        rows_ = [[(s0 if i == j else 0) - A[i][j] for j in range(n)] for i in range(n)]
+        if det_frac(rows_) != 0:
+            X0 = [z.re for z in solve_any(rows_, x0_, n)]
+            for k, (yn, yr) in enumerate(zip(ss['y'], ss['yref0'])):
+                if yr is None:
+                    continue
+                y = sum(C[k][j] * X0[j] for j in range(n))
+                st['checked'] += 1
+                if y != Fraction(yr):
+                    bad.append({'key': 'ss:initial-state-response:%s' % ('voltage' if yn.startswith('v_') else 'current'),
+                                'what': 'initial-state response of %s: C (sI-A)^-1 x0 = %s at s = %s, circuit analysis with the sources zeroed gives %s' % (yn, y, s0, yr)})
+                    break
     # (2) response: (sI - A) X = B U + x0, Y = C X + D U against circuit analysis
     if ss.get('U') is not None and all(u is not None for u in ss['U']):
         U = [Fraction(u) for u in ss['U']]
@@ -651,7 +674,8 @@ def ss_oracle(r, conv):
     if extraction_bad:
         # one root cause: the matrices were not extracted correctly from the substituted circuit
         if bad:
-            bad = [{'key': ext_key, 'what': 'A, B, C, D do not reproduce Lcapy\'s own solution of the substituted circuit; e.g. ' + bad[0]['what']}]
+            keep = [b for b in bad if b['key'] == 'ss:x0-order']
+            bad = keep + [{'key': ext_key, 'what': 'A, B, C, D do not reproduce Lcapy\'s own solution of the substituted circuit; e.g. ' + [b for b in bad if b not in keep or True][0]['what']}]
         else:
             contract.append({'what': 'A, B, C, D do not reproduce an excitation of the substituted circuit'})
     return bad, contract, st
@@ -711,3 +735,20 @@ def mna_oracle(r):
                     bad.append({'key': 'mna:solution-does-not-satisfy-shown-system', 'what': 'row %d of the shown system A y = b is not satisfied by the reported voltages/currents' % i})
                     break
     return bad, st
+
+
+def gen_cl_order(rng):
+    """small ivp circuit with at least one L and one C, a capacitor listed before an inductor, distinct non-zero initial
+    conditions (exercises the ordering of the state vector and of its initial values)"""
+    vals = rng.sample([1, 2, 3, 4, 5, 6, 7], 4)
+    ics = rng.sample([-5, -3, -2, 2, 3, 4, 6], 3)
+    shape = rng.randint(0, 2)
+    src = rng.choice(['V1 1 0 step %d' % rng.randint(1, 6), 'V1 1 0 {%d*u(t)}' % rng.randint(1, 6)])
+    a, b = (('2', '0'), ('0', '2'))[rng.randint(0, 1)]
+    if shape == 0:      # series R - L into a shunt C
+        nl = [src, 'C1 %s %s %s %s' % (a, b, fs(Fraction(vals[0], 2)), ics[0]), 'R1 1 3 %d' % vals[1], 'L1 3 2 %d %s' % (vals[2], ics[1])]
+    elif shape == 1:    # C and L to ground from two nodes
+        nl = [src, 'R1 1 2 %d' % vals[1], 'C1 %s %s %d %s' % (a, b, vals[0], ics[0]), 'R2 2 3 %d' % vals[3], 'L1 3 0 %d %s' % (vals[2], ics[1])]
+    else:               # two capacitors around an inductor, no source path for one of them
+        nl = ['C1 1 0 %d %s' % (vals[0], ics[0]), 'R1 1 2 %d' % vals[1], 'L1 2 3 %d %s' % (vals[2], ics[1]), 'C2 3 0 %d %s' % (vals[3], ics[2]), 'R2 3 0 %d' % (vals[1] + 1)]
+    return nl
